@@ -1,0 +1,114 @@
+// Copyright 2024 RisingLight Project Authors. Licensed under Apache-2.0.
+
+//! Verification hooks. Compiled only with `--cfg risinglight_verif`.
+//!
+//! Nothing in here changes behaviour unless an external harness installs a [`Hooks`]
+//! implementation with [`install`]. Without one every call returns immediately.
+
+use std::collections::HashMap;
+use std::path::Path;
+use std::sync::{Arc, Mutex, RwLock};
+
+/// A fault injected into an operator task.
+#[derive(Clone, Copy, Debug, PartialEq, Eq)]
+pub enum Fault {
+    Error,
+    Panic,
+}
+
+/// Named integer arguments of an event.
+pub type Args<'a> = &'a [(&'static str, i64)];
+
+/// Callbacks implemented by the external harness.
+pub trait Hooks: Send + Sync + 'static {
+    /// A state change at a linearisation point, reported while the protecting lock is held.
+    fn event(&self, _actor: &str, _label: &'static str, _args: Args<'_>) {}
+
+    /// A point at which the calling task may be parked. The task waits until the returned
+    /// receiver resolves (or its sender is dropped).
+    fn gate(
+        &self,
+        _actor: &str,
+        _label: &'static str,
+        _args: Args<'_>,
+    ) -> Option<tokio::sync::oneshot::Receiver<()>> {
+        None
+    }
+
+    /// A persistence step. `bytes` are the bytes about to be written (empty otherwise).
+    fn crash_point(&self, _label: &'static str, _path: &Path, _bytes: &[u8]) {}
+
+    /// Asked by every operator task before it forwards its `chunk`-th output chunk
+    /// (`chunk == usize::MAX` stands for end of stream).
+    fn fault(&self, _actor: &str, _op: &str, _chunk: usize) -> Option<Fault> {
+        None
+    }
+}
+
+static HOOKS: RwLock<Option<Arc<dyn Hooks>>> = RwLock::new(None);
+static ACTORS: Mutex<Option<HashMap<tokio::task::Id, String>>> = Mutex::new(None);
+
+/// Install (or remove) the hooks.
+pub fn install(hooks: Option<Arc<dyn Hooks>>) {
+    *HOOKS.write().unwrap() = hooks;
+    *ACTORS.lock().unwrap() = Some(HashMap::new());
+}
+
+fn hooks() -> Option<Arc<dyn Hooks>> {
+    HOOKS.read().unwrap().clone()
+}
+
+/// Whether hooks are installed.
+pub fn enabled() -> bool {
+    HOOKS.read().unwrap().is_some()
+}
+
+/// Name the current tokio task.
+pub fn adopt(actor: impl Into<String>) {
+    if let Some(id) = tokio::task::try_id()
+        && let Some(map) = ACTORS.lock().unwrap().as_mut()
+    {
+        map.insert(id, actor.into());
+    }
+}
+
+/// Name of the current tokio task (`"?"` if it was never named).
+pub fn current_actor() -> String {
+    if let Some(id) = tokio::task::try_id()
+        && let Some(map) = ACTORS.lock().unwrap().as_ref()
+        && let Some(name) = map.get(&id)
+    {
+        return name.clone();
+    }
+    "?".into()
+}
+
+/// Report an event.
+pub fn event(label: &'static str, args: Args<'_>) {
+    if let Some(h) = hooks() {
+        h.event(&current_actor(), label, args);
+    }
+}
+
+/// Possibly park the current task.
+pub async fn yield_point(label: &'static str, args: Args<'_>) {
+    let rx = match hooks() {
+        Some(h) => h.gate(&current_actor(), label, args),
+        None => None,
+    };
+    if let Some(rx) = rx {
+        let _ = rx.await;
+    }
+}
+
+/// Report a persistence step.
+pub fn crash_point(label: &'static str, path: impl AsRef<Path>, bytes: &[u8]) {
+    if let Some(h) = hooks() {
+        h.crash_point(label, path.as_ref(), bytes);
+    }
+}
+
+/// Ask for a fault to inject.
+pub fn fault_point(op: &str, chunk: usize) -> Option<Fault> {
+    hooks().and_then(|h| h.fault(&current_actor(), op, chunk))
+}
